@@ -2,6 +2,7 @@ package sim
 
 import (
 	"encoding/json"
+	"sync/atomic"
 )
 
 // ReqRecord is everything the simulator observed while one request was
@@ -65,6 +66,11 @@ func (m monitor) lock() func() {
 }
 
 func (m monitor) rec() *ReqRecord {
+	if !m.w.degraded && atomic.LoadInt32(&m.w.nWaiting) > 0 {
+		if t := m.w.caller(); t != nil {
+			return t.rec
+		}
+	}
 	if t := m.w.cur; t != nil {
 		return t.rec
 	}
